@@ -26,6 +26,10 @@ LEVEL_NOTE = (
     'each function BODY is insensitive to int-vs-float of an equal number is checked by correspondence only. '
     'Known findings D22 (numpy 32-bit scalars rejected), D23 (date-like text and Python underscore numerals accepted).')
 DESIGN_REF = '§4 C08'
+
+# theorems of the integrated pipeline model (Props/X01.lean) that carry this property's theorems to formula TEXTS in a
+# compiled workbook; re-built and audited with this check (harness/common.prepare: soft obligations)
+TRANSPORT = ('XlVerif.Props.X01', ['wrapper_refines', 'compile_call_formula'])
 TRUSTED = [
     'Lean 4.33 kernel; axioms propext, Classical.choice, Quot.sound only',
     'hand-written models Model/Value.lean, Model/Validate.lean, Model/C08.lean (correspondence-checked)',
